@@ -109,6 +109,10 @@ func parseClusterNodesSlot(segements []string) ([]int, error) {
 			if err != nil {
 				return nil, errInvalidClusterNodes
 			}
+			// the loop below materialises the range: bound it by the slot space.
+			if start < 0 || end >= slotNum || start > end {
+				return nil, errInvalidClusterNodes
+			}
 			for i := start; i <= end; i++ {
 				slots = append(slots, i)
 			}
